@@ -182,21 +182,23 @@ class Evaluator:
             op = t[1][0]
             if op == "In":
                 a = self.eval(t[2], rows, tk)
-                items = [lit_value(e) for e in t[3][1][1:]]
+                item_vecs = [self.eval(e, rows, tk) for e in t[3][1][1:]]
                 out = []
-                for x in a:
+                for ri, x in enumerate(a):
                     if x is UNDEF:
                         out.append(UNDEF)
                     elif x is None:
                         out.append(None)
                     else:
                         res = False
-                        for it in items:
-                            c = _cmp("Eq", x, it)
+                        for vec in item_vecs:
+                            c = _cmp("Eq", x, vec[ri])
                             if c is UNDEF:
                                 res = UNDEF
                                 break
-                            if c:
+                            if c is None and res is False:
+                                res = None      # SQL: x IN (.., NULL) is unknown unless some element matches
+                            if c is True:
                                 res = True
                                 break
                         out.append(res)
